@@ -12,6 +12,9 @@ TRUST_BY_FN = {'get_caller_by_cfi': 'CallFrameInfo', 'get_caller_by_frame_pointe
                'get_caller_by_scan': 'Scan', 'get_caller_by_scan32': 'Scan', 'get_caller_by_scan64': 'Scan'}
 
 
+UNWINDER_RE = r'^minidump_unwind::\w+::get_caller_(by_\w+|frame)(::\{closure#\d+\})*$'
+
+
 def arch_fns(prog, res):
     c = prog.crate('minidump_unwind')
     disp = [f for f in c.fns if f.path.startswith('minidump_unwind::get_caller_frame')]
@@ -182,8 +185,13 @@ def check_construction(prog, res):
                 res.violation('C05.4', 'C05.4|from_context|args', fc, st.get('line'), 'trust/context fields are not the arguments')
     # every StackFrame literal and every from_context call in the workspace
     res.rule('C05.5', 0, floor=18, note='trust label passed to from_context by unwinder code is cfi / frame_pointer / scan matching the technique; Context only for frame 0')
+    views, absorbed = with_helpers(prog, 'minidump_unwind', UNWINDER_RE)
     for cname in ('minidump_unwind', 'minidump_processor', 'minidump_stackwalk', 'breakpad_symbols'):
         for f in prog.crate(cname).fns:
+            if cname == 'minidump_unwind':
+                if f.path in absorbed:
+                    continue      # a private helper of the unwinders: seen inlined, in the unwinder's view
+                f = views.get(f.path, f)
             for b in sorted(f.reach):
                 for i, s in enumerate(f.blocks[b]['s']):
                     if s['k'] == 'assign' and s['rv']['k'] == 'agg' and s['rv'].get('ak') == 'adt' and s['rv']['adt'] == 'minidump_unwind::StackFrame':
@@ -221,10 +229,12 @@ def check_scan(prog, res):
     """C05.6: scanned return address is the word just below the new sp"""
     cu = prog.crate('minidump_unwind')
     res.rule('C05.6', 0, floor=6, note='caller_sp = checked_add(address_of_ip, POINTER_WIDTH)? where address_of_ip is the address read for caller_ip')
+    views, absorbed = with_helpers(prog, 'minidump_unwind', UNWINDER_RE)
     for f in cu.fns:
         m = re.match(r'minidump_unwind::(\w+)::get_caller_by_scan(32|64)?(::\{closure#0\})?$', f.path)
         if not m or m.group(1) not in ARCHES:
             continue
+        f = views.get(f.path, f)
         calls = [(b, t) for b, t in f.calls() if f.callee(t) == 'minidump_unwind::StackFrame::from_context']
         for b, t in calls:
             res.rule('C05.6', 1)
